@@ -83,6 +83,11 @@ def chunk_program(rng, m, novmap):
                           has_saved=True)[0]
         if rng.random() < 0.3 and p > 1:
             o = P.add_mul(o, o)
+        if rng.random() < 0.4:
+            # a differentiated tensor of 2 or more dimensions: it still contributes numel rows
+            shapes = [(1, p), (p, 1), (1, 1, p)] + [(a, p // a) for a in range(2, p) if p % a == 0]
+            sh = rng.choice(shapes)
+            o = P.add_aff(lambda t, sh=sh: t[0].reshape(sh), [o], f"n{o}.reshape{sh}")[0]
         outs.append(o)
     return P, g, outs
 
